@@ -9,13 +9,17 @@
 package main
 
 import (
+	"encoding/json"
 	"fmt"
 	"os"
+	"os/exec"
+	"path/filepath"
 	"runtime"
 	"runtime/debug"
 	"sort"
 	"strings"
 	"sync"
+	"time"
 
 	"github.com/sdcio/yang-parser/compile"
 	"github.com/sdcio/yang-parser/parse"
@@ -243,6 +247,42 @@ func underScheduler(r *result, f func()) {
 	s.Close()
 }
 
+// freshProcess has a new process of this binary re-create the case from its tape so far and do the
+// reference compile, and returns "<verdict> <hash of the canonical dump>".
+func freshProcess(genTape []uint32) (string, bool) {
+	dir := os.Getenv("VERIF_WORKDIR")
+	if dir == "" {
+		dir = os.TempDir()
+	}
+	tf := filepath.Join(dir, fmt.Sprintf("iso-%d.json", os.Getpid()))
+	of := tf + ".out"
+	b, _ := json.Marshal(genTape)
+	if err := os.WriteFile(tf, b, 0o644); err != nil {
+		return err.Error(), false
+	}
+	defer os.Remove(tf)
+	defer os.Remove(of)
+	cmd := exec.Command(os.Args[0], "-mode=one", "-file="+tf)
+	cmd.Env = append(os.Environ(), "VERIF_C11_ISOLATE_OUT="+of)
+	done := make(chan error, 1)
+	go func() { _, err := cmd.Output(); done <- err }()
+	var err error
+	select {
+	case err = <-done:
+	case <-time.After(60 * time.Second):
+		if cmd.Process != nil {
+			cmd.Process.Kill()
+		}
+		<-done
+		return "timed out", false
+	}
+	out, _ := os.ReadFile(of)
+	if l := strings.TrimSpace(string(out)); strings.HasPrefix(l, "ISOLATED ") {
+		return strings.TrimPrefix(l, "ISOLATED "), true
+	}
+	return fmt.Sprintf("no answer (err=%v)", err), false
+}
+
 type result struct {
 	hung     string // the compile did not return under the scheduler (deadlock among its goroutines / step limit)
 	parseErr error
@@ -422,6 +462,24 @@ func (w world) RunCase(t *tape.Tape, st *super.Stats) *super.Violation {
 	// R0: reference
 	simrt.Order = nil
 	r0 := compileOnce(texts, canonOrder, fc, nil, skipUnknown, true)
+	if out := os.Getenv("VERIF_C11_ISOLATE_OUT"); out != "" {
+		// this process exists to compile this one set, first thing after its start, and say what came out
+		os.WriteFile(out, []byte(fmt.Sprintf("ISOLATED %s %016x\n", r0.verdict(), super.Hash(r0.canon))), 0o644)
+		os.Exit(0)
+	}
+	// "identical on every run" includes a run in a process that has done nothing else: this process has
+	// compiled the sets of its earlier cases. One case in twelve asks a fresh process for the reference.
+	if t.Rare(12) && r0.parseErr == nil && !r0.panicked && r0.hung == "" && (r0.err != nil || r0.dumpOK) {
+		if want, ok := freshProcess(t.Recorded()); !ok {
+			super.Trouble("fresh-process reference: " + clip(want, 300))
+		} else {
+			inc("reference_compiles_repeated_in_a_fresh_process")
+			if got := fmt.Sprintf("%s %016x", r0.verdict(), super.Hash(r0.canon)); got != want {
+				return &super.Violation{Class: "history-dependent-outcome", Sig: "history-dependent-outcome|" + r0.verdict() + "-vs-" + strings.SplitN(want, " ", 2)[0],
+					Detail: fmt.Sprintf("the reference compile of this set gives a different outcome in a fresh process than in this process, which compiled other sets before (verdict and hash of the canonical schema dump: here %q, fresh process %q; error here: %v)\n%s", got, want, r0.err, setDesc())}
+			}
+		}
+	}
 	inc("compiles")
 	inc("verdict0:" + r0.verdict())
 	if super.Noting() {
